@@ -141,6 +141,50 @@ func Dial(ctx context.Context) (p9p.Session, *Peer, error) {
 	}
 }
 
+// DialHostile is Dial with a peer that answers the client's Tversion with the
+// given bytes (and then closes the connection if closeAfter).  It returns
+// whatever p9p.CSession returned; ok=false if CSession did not return within Wait.
+func DialHostile(ctx context.Context, answer []byte, closeAfter bool) (s p9p.Session, p *Peer, err error, ok bool) {
+	cc, sc := net.Pipe()
+	p = &Peer{Conn: sc, Frames: make(chan Frame, 4096), RdErr: make(chan error, 1)}
+	go func() {
+		if _, err := readFrame(sc); err != nil {
+			p.RdErr <- err
+			close(p.Frames)
+			return
+		}
+		sc.SetWriteDeadline(time.Now().Add(Wait))
+		sc.Write(answer)
+		if closeAfter {
+			sc.Close()
+		}
+		for {
+			f, err := readFrame(sc)
+			if err != nil {
+				p.RdErr <- err
+				close(p.Frames)
+				return
+			}
+			p.Frames <- f
+		}
+	}()
+	type sres struct {
+		s   p9p.Session
+		err error
+	}
+	done := make(chan sres, 1)
+	go func() {
+		s, err := p9p.CSession(ctx, cc)
+		done <- sres{s, err}
+	}()
+	select {
+	case r := <-done:
+		return r.s, p, r.err, true
+	case <-time.After(Wait):
+		return nil, p, nil, false
+	}
+}
+
 // Send writes raw bytes to the client.
 func (p *Peer) Send(raw []byte) error {
 	p.wmu.Lock()
